@@ -252,6 +252,19 @@ func buildCases(seed int64, thorough bool) []caseSpec {
 				}
 			}
 		}
+		// ---- the net.Conn reports an error from Close() (after really closing): k in {0,1,N}, blocked receivers
+		for _, setup := range []string{"pipe-client", "pipe-server", "pipe-both"} {
+			for _, st := range []stepDef{{Step: "ready"}, {Step: "inflight", K: 1}, {Step: "inflight", K: 8}, {Step: "mid-response", K: 4}} {
+				for _, f := range []string{"close-err+Close", "close-err+peer-close"} {
+					k := st.K
+					if round > 0 && k > 1 {
+						k = 2 + r.Intn(15)
+					}
+					add(caseSpec{Class: "seq", Setup: setup, Step: st.Step, Fault: f, Version: 4, K: k, Receivers: round%2 == 0})
+					n++
+				}
+			}
+		}
 		// ---- special scripted scenarios
 		for _, name := range []string{"server.Close/unaccepted-holder", "server.Close/accept-blocked", "send-after-close", "double-close", "server.Close/after-MaxConnections-accepts"} {
 			add(caseSpec{Class: "special", Name: name, Setup: "lib-lib", Version: 4})
